@@ -170,6 +170,9 @@ package revocation
 
 //@ func (*Witness).Update
 //@   property C09 C10
+//@   # inplace (C11): an update that does not change the index keeps the SignedAccumulator object and overwrites it in place; prepared
+//@   # proof commitments hold that object by pointer and are not refreshed for an unchanged index, so this is what makes the time
+//@   # a verifier reads from a proof built from a prepared commitment the current one
 //@   safety
 //@   requires w != nil && pk != nil && pk.N != nil && val(pk.N) > 1 && update != nil && update.SignedAccumulator != nil && evnonnil(update.Events) && prodinv(update)
 //@   requires w.U != nil && w.E != nil && val(w.E) > 0
@@ -178,6 +181,7 @@ package revocation
 //@   ensures forward: err == nil ==> w.SignedAccumulator != nil && w.SignedAccumulator.Accumulator != nil && (old(w.SignedAccumulator.Accumulator) != nil ==> w.SignedAccumulator.Accumulator.Index >= old(w.SignedAccumulator.Accumulator.Index))
 //@   ensures checked: err == nil && w.U != old(w.U) ==> w.SignedAccumulator.Accumulator.Nu != nil && pow(val(w.U), val(w.E), val(pk.N)) == val(w.SignedAccumulator.Accumulator.Nu)
 //@   ensures kept: w.E == old(w.E) && val(w.E) == old(val(w.E))
+//@   ensures[C11] inplace: err == nil && old(w.SignedAccumulator.Accumulator) != nil && w.SignedAccumulator.Accumulator.Index == old(w.SignedAccumulator.Accumulator.Index) ==> w.SignedAccumulator == old(w.SignedAccumulator)
 //@   ensures tracked: err == nil && old(w.SignedAccumulator.Accumulator) != nil && w.SignedAccumulator.Accumulator.Index != old(w.SignedAccumulator.Accumulator.Index) ==> w.U != old(w.U)
 //@   ensures verified: err == nil && (w.U != old(w.U) || w.SignedAccumulator != old(w.SignedAccumulator)) ==> update.SignedAccumulator.Accumulator != nil && chained(update.Events, update.SignedAccumulator.Accumulator)
 //@   ensures notrevoked: err == nil && w.U != old(w.U) && len(update.Events) > 0 && old(w.SignedAccumulator.Accumulator) != nil ==> gcd(val(w.E), old(eprod(update.Events, w.SignedAccumulator.Accumulator.Index + 1 - update.Events[0].Index, len(update.Events)))) == 1
